@@ -64,7 +64,7 @@ def write_elf(path, segs, ps=4096, machine="x86_64", elfclass=64, be=False, nuls
             ph += struct.pack(E + "IIQQQQQQ", 1, 7, off, va, pa, filesz, memsz, ps)
         else:
             ph += struct.pack(E + "IIIIIIII", 1, off, va, pa, filesz, memsz, 7, ps)
-        body.append((off, pa, filesz))
+        body.append((off, pa, filesz, s.get("data")))
         off += (filesz + ps - 1) // ps * ps
     ident = b"\x7fELF" + bytes([2 if elfclass == 64 else 1, 2 if be else 1, 1, 0]) + b"\0" * 8
     if elfclass == 64:
@@ -74,9 +74,11 @@ def write_elf(path, segs, ps=4096, machine="x86_64", elfclass=64, be=False, nuls
     with open(path, "wb") as f:
         f.write(eh + ph + notes)
         nulset = set(nuls)
-        for o, pa, n in body:
+        for o, pa, n, explicit in body:
             f.seek(o)
-            if pa % ps == 0 and n % ps == 0:
+            if explicit is not None:
+                f.write(bytes(explicit[:n]).ljust(n, b"\0"))
+            elif pa % ps == 0 and n % ps == 0:
                 for i in range(n // ps):
                     f.write(page_bytes(pa // ps + i, ps, nuls))
             else:
@@ -138,6 +140,8 @@ def compress_page(data, method, level=None):
         return zstd_raw(data), DH_ZSTD
     if method == "lzo":
         return data, DH_LZO             # not decodable: exercises the NOTIMPL exit
+    if method == "zlib-bad":
+        return bytes((b * 7 + 3) & 0xff for b in data[:100]), DH_ZLIB     # flagged zlib, does not inflate
     raise ValueError(method)
 
 
